@@ -305,9 +305,12 @@ def h_wedge_smiles(V, smi, falsify=False, spell=False):
         # chython declines exactly when its own signed volume is zero; nothing further to compare on this path
         V.prove(True, 'degenerate drawing skipped')
         return
-    text = format(m, 'r') if spell else str(m)
+    if spell:       # the order of atoms in this particular random spelling, not the canonical one
+        text, order = m.__format__('r', _return_order=True)
+        order = list(order)
+    else:
+        text, order = str(m), list(m.smiles_atoms_order)
     ref = refsmiles.read(text)
-    order = m.smiles_atoms_order
     ci = order.index(n)
     ra = ref.atoms[ci]
     V.prove(ra.chirality in ('@', '@@'), 'labelled centre is written with a chirality mark', {'text': text})
@@ -349,9 +352,12 @@ def h_cis_trans_2d_smiles(V, smi, falsify=False, spell=False):
             axis = sub2(pts[dbl[0]], pts[n])
             V.assume(cross2(axis, sub2(pts[oth[0]], pts[n])) * cross2(axis, sub2(pts[oth[1]], pts[n])) < 0)
     m.calculate_cis_trans_from_2d()
-    text = format(m, 'r') if spell else str(m)
+    if spell:
+        text, order = m.__format__('r', _return_order=True)
+        order = list(order)
+    else:
+        text, order = str(m), list(m.smiles_atoms_order)
     ref = refsmiles.read(text)
-    order = m.smiles_atoms_order
     labelled = [(i, j) for i, j, b in m.bonds() if b.stereo is not None]
     found = 0
     for db in ref.double_bond_geometry():
